@@ -309,12 +309,7 @@ static void judge_extract(Rng &r, int p, Carrier &c, const Rec &rec, const Rec *
       R.violation("extract-ids", rec.cls, "got " + show_sc(o.sc) + " " + want + "; " + witness);
   }
   else if (o.sc.IsSampled() != rec.sampled)
-  {
-    if (shadowed && shadowed->accept && shadowed->sampled == o.sc.IsSampled() && shadowed->tid == rec.tid && shadowed->sid == rec.sid)
-      R.violation("b3-single-precedence", rec.cls, "X-B3-Sampled won over b3: got " + show_sc(o.sc) + " " + want + "; " + witness);
-    else
-      R.violation("extract-sampled", rec.cls, "got " + show_sc(o.sc) + " " + want + "; " + witness);
-  }
+    R.violation("extract-sampled", rec.cls, "got " + show_sc(o.sc) + " " + want + "; " + witness);
   if (!o.sc.IsRemote())
     R.violation("extract-remote", rec.cls, "extracted context is not marked remote; " + witness);
 }
@@ -979,16 +974,20 @@ static void random_case(uint64_t seed, uint64_t variants)
   R.nontrivial(h);
 }
 
+// Case layout (independent of tier and of the total case count, so any case replays alone):
+// every kEnumEvery-th case is the next slot of the enumerated block (base = e / kStride,
+// slot = e % kStride with e = i / kEnumEvery); every other case is a seeded random case.
+// kEnumEvery is coprime with the shard counts so the enumerated cases spread over all shards.
+static const uint64_t kEnumEvery = 25;
+
 int main(int argc, char **argv)
 {
   auto &R = vf::report();
   R.init("C16", argc, argv);
-  uint64_t bases    = static_cast<uint64_t>(R.opt.param("enum_bases", 12));
   uint64_t variants = static_cast<uint64_t>(R.opt.param("variants_per_case", 6));
-  uint64_t E        = bases * kStride;
   R.run_cases([&](uint64_t i) {
-    if (i < E)
-      enum_case(R.opt.seed, i / kStride, i % kStride, R.case_seed(i));
+    if (i % kEnumEvery == 0)
+      enum_case(R.opt.seed, (i / kEnumEvery) / kStride, (i / kEnumEvery) % kStride, R.case_seed(i));
     else
       random_case(R.case_seed(i), variants);
   });
